@@ -202,6 +202,36 @@ def gen_dataset(prop: str, idx: int) -> dict:
             traces.append({"id": tid, "wf": src["wf"], "kind": "outside",
                            "spans": spans})
             faults["trace_in_buffer_zone"] += 1
+        # a trace straddling the lower window edge: every span starts before
+        # the edge, the root span ends inside the window (must be kept, and
+        # selected by -ug: its shape is made different from its source's)
+        faults["trace_straddling_window_edge"] = 0
+        if rng.random() < 0.7:
+            src = rng.choice([t for t in oks if len(t["spans"]) >= 3])\
+                if any(len(t["spans"]) >= 3 for t in oks) else None
+            if src is not None:
+                tid = f"tr{tcount:03d}"
+                tcount += 1
+                lo = T0 - 30 * 10**9          # = early trace start + buffer
+                shift = (lo - 500_000) - src["spans"][0][
+                    "start_time_unix_nano"]
+                spans = copy.deepcopy(src["spans"])
+                parents = {x.get("parent_span_id") for x in spans}
+                leaves = [x for x in spans if x["span_id"] not in parents]
+                spans.remove(leaves[-1])
+                for s_ in spans:
+                    s_["trace_id"] = tid
+                    s_["span_id"] = s_["span_id"].replace(src["id"], tid)
+                    if "parent_span_id" in s_:
+                        s_["parent_span_id"] = s_["parent_span_id"].replace(
+                            src["id"], tid)
+                    s_["start_time_unix_nano"] += shift
+                    s_["end_time_unix_nano"] += shift
+                if all(x["start_time_unix_nano"] < lo for x in spans) and \
+                        spans[0]["end_time_unix_nano"] > lo:
+                    traces.append({"id": tid, "wf": src["wf"], "kind": "ok",
+                                   "spans": spans})
+                    faults["trace_straddling_window_edge"] += 1
     mislabel = {}
     if n_wf > 1 and rng.random() < 0.3:
         t = rng.choice([t for t in traces if t["kind"] == "ok"])
